@@ -18,7 +18,7 @@ func init() {
 			"(classify) Serve dispatches messages with a Request part to handlers and only request-less messages with an id to waiters; " +
 			"(async-dispatch) requests are handed to handleRequest by a go statement and the reply channel is buffered, so a handler may call back and a reply may arrive before its caller waits; " +
 			"(ctx-service) handleRequest and Local.Call put their own receiver under the context key that CtxService reads, and pass that context to the handler; " +
-			"(cancel) receive selects on ctx.Done() and returns ctx.Err(); (unique-id) request ids come from an atomic per-client counter; (no-block-under-lock) nothing blocks while Remote.mu is held; (reply-shape) a reply lacking its Response part is refused, not dereferenced; (reply-id) every return of Server.Handle carries the request id and handleRequest writes it (same rule as C15.reply-id).",
+			"(cancel) receive selects on ctx.Done() and returns ctx.Err(); (unique-id) request ids come from an atomic per-client counter; (no-block-under-lock) nothing blocks while Remote.mu is held; (reply-shape) a reply lacking its Response part is refused, not dereferenced; (reply-id) every return of Server.Handle carries the request id and handleRequest writes it (same rule as C15.reply-id). Round 2: a Client created on the fly must be kept in a field (ids would restart per call); (reply-id) every return of Server.Handle carries the request id.",
 		NotDecided: []string{"not decided: exactly-once handling and delivery orders under concrete schedules; behaviour of PendingLimit eviction under load; fairness"},
 	}
 }
